@@ -225,6 +225,29 @@ pub fn run(tier: &str) -> i32 {
         phases.push(json!({"phase": "key material rotated in place (same buffer, next key)", "executions": n}));
     }
 
+    // phase 4c: tokens of the reference whose message is not UTF-8: the library cannot return that message, so
+    // every core entry point must answer with an error (never with another text)
+    {
+        let mut n = 0;
+        for t in crate::cases::foreign_tokens() {
+            let Some(p) = Proto::from_name(t["proto"].as_str().unwrap_or("")) else { continue };
+            let key = domains::key_pool(p)[0].clone();
+            let back = adapter::core_present(p, &key.pk, t["token"].as_str().unwrap_or(""), t["footer"].as_str(), None);
+            all.executions += 1;
+            n += 1;
+            let want_msg = crate::b64::unhex(t["msg_hex"].as_str().unwrap_or("")).unwrap_or_default();
+            let ok = if t["valid_utf8"] == json!(true) { matches!(&back, Out::Ok(m) if m.as_bytes() == want_msg.as_slice()) } else { back.is_err() };
+            if !ok {
+                all.violate(
+                    format!("C08|{}|foreign-non-utf8-message", p.name()),
+                    format!("a token of the reference over the message {} (valid UTF-8: {}) -> {}: expected {}", t["msg_hex"].as_str().unwrap_or(""), t["valid_utf8"], back.short(), if t["valid_utf8"] == json!(true) { "that message" } else { "an error (the message cannot be returned as text)" }),
+                    json!({"foreign": t}),
+                );
+            }
+        }
+        phases.push(json!({"phase": "reference-made tokens over messages that are not UTF-8", "executions": n}));
+    }
+
     // phase 5: nonce seeds (found by search with the reference, fixtures/ctr_wrap.json, re-verified here) whose
     // derived AES-CTR IV is within 64 blocks of a 2^32 wrap of its low word: a counter narrower than the
     // specification's 128 bits diverges inside a 1 025-byte message
